@@ -682,6 +682,7 @@ func runC09(c *Ctx) {
 	// ---- 2. topoSort ----
 	c09Topo(c)
 	c09Exprs(c) // ---- 2b. value expressions: FormatExp / ParseValExp (c09exp.go)
+	c09Calls(c) // ---- 2c. call statements: CallStm.format / call_stm (c09call.go)
 
 	// ---- 3. formatter monitors ----
 	progSeeds, _ := c08LoadSeeds(c)
